@@ -191,6 +191,8 @@ def _classify_set_use(prog: Program, mod, node: ast.expr, t: str) -> Tuple[str, 
         return "ok", "bound / returned / tested for emptiness (each later use is classified where it occurs)"
     if isinstance(p, ast.UnaryOp) and isinstance(p.op, ast.Not):
         return "ok", "tested for emptiness"
+    if isinstance(p, (ast.DictComp, ast.ListComp, ast.SetComp, ast.GeneratorExp)):
+        return "ok", "element produced by a comprehension (a container of sets; the set itself is not iterated here)"
     if isinstance(p, ast.BinOp) and isinstance(p.op, (ast.BitOr, ast.BitAnd, ast.Sub, ast.BitXor)):
         return "ok", "set algebra"
     if isinstance(p, ast.Attribute):
